@@ -74,6 +74,45 @@ def realpool_part(ctx, mine):
     ctx.assumptions.append("tier 2 uses real processes and the real clock; only journal order and drained final states are compared")
 
 
+def e2e_part(ctx, mine, n=None):
+    """End-to-end tier: the real `gwf workers` process over TCP, healthy gwf invocations and a misbehaving
+    raw-socket client (scenarios and oracle: spec/WorkersE2E.tla)."""
+    from .. import defs, tlc, workers_e2e
+    from ..common import Machinery
+
+    ctx.phase("end-to-end: gwf workers over TCP")
+    res = tlc.run_tlc("WorkersE2E", "WorkersE2E.cfg", env={"GEN": "all" if ctx.thorough else "some"}, seed=ctx.seed, scratch=ctx.scratch)
+    scns = res.values
+    if not scns:
+        raise Machinery("WorkersE2E produced no scenario")
+    recs = pmap(workers_e2e.drive, list(enumerate(scns)), procs=8, chunk=1)
+    failed = defs.validate(ctx, recs, module="WorkersE2E", cfg="WorkersE2E.cfg", parts=1)
+    byid = {r["id"]: r for r in recs}
+    for rid, cl in failed.items():
+        m = [c for c in cl if c.startswith(mine)]
+        if m:
+            ctx.violation(m, dict(byid[rid]["scn"], kind="e2e"), byid[rid]["obs"])
+    ctx.cov["end_to_end_scenarios"] = len(recs)
+    ctx.cov["evaluations"] += len(recs)
+    ctx.cov["traces_validated_against_impl"] += len(recs)
+    ctx.cov["samples"].append(recs[0])
+
+
+def replay_e2e(ctx, path, mine):
+    from .. import defs, workers_e2e
+
+    v = json.load(open(path))
+    rec = workers_e2e.drive((0, {k: v["scenario"][k] for k in ("cores", "ntasks", "misbehave")}))
+    failed = defs.validate(ctx, [rec], module="WorkersE2E", cfg="WorkersE2E.cfg", parts=1)
+    m = [c for c in failed.get(0, []) if c.startswith(mine)]
+    print(json.dumps(rec["obs"]))
+    if m:
+        print("VIOLATION property=%s replay=%s clauses=%s" % (ctx.pid, path, ",".join(m)))
+        return 1
+    print("replay passes")
+    return 0
+
+
 def replay_real(ctx, path, mine):
     from .. import defs, realpool
 
@@ -92,6 +131,8 @@ def replay_real(ctx, path, mine):
 def replay(ctx, path, focus):
     if json.load(open(path))["scenario"].get("kind") == "realpool":
         return replay_real(ctx, path, (focus + "_",))
+    if json.load(open(path))["scenario"].get("kind") == "e2e":
+        return replay_e2e(ctx, path, (focus + "_",))
     v = json.load(open(path))
     s = v["scenario"]
     tr = pooldrive.drive((0, {"cores": s["cores"], "ev": s["generated"]}))
